@@ -176,7 +176,7 @@ CHECKS = {
         "to a journal that validJournal accepts (C09_crash), and such a journal without a live RESERVED lock makes every page request of every transaction fail (C09_hot_journal_refuses); "
         "journals shorter than a header are not hot (C09_benign); once the commit operation has taken effect, even partly, what is left is not hot at any later crash point (C09_committed); "
         "so every crash state is one of: hot journal, untouched file, committed file without a hot journal (C09_every_crash_state); the journal header fields the model reads are the struct validJournal decodes, "
-        "translated from db/journal.go on every build (C09_source_journal_layout). Every run: a real SQLite writer that spills is killed on entering every pwrite64 / fdatasync / ftruncate / unlink on the "
+        "translated from db/journal.go on every build, and valid_journal is exactly validJournal's translated tests (C09_source_journal_layout, C09_source_journal_tests). Every run: a real SQLite writer that spills is killed on entering every pwrite64 / fdatasync / ftruncate / unlink on the "
         "two files (strace injection), torn writes are synthesised, DELETE / TRUNCATE / PERSIST, several page sizes, 512- and 4096-byte sectors; sqlittle must fail or return exactly what "
         "real SQLite returns after recovering a copy; one handle across the crash; the refused states re-read while another process holds a SHARED lock (still refused); after a crash met by a long-lived handle SQLite recovers in place and commits once more, the handle then reads SQLite's content; benign journals. The real writer's operation order is checked against the theorem's protocol automaton.",
    note="PARTIAL: process-kill semantics (completed writes persist in order); power-loss reordering is outside the property. That SQLite's recovery of a pair whose journal is not hot returns the "
